@@ -105,11 +105,18 @@ func apiSweep(w []byte) (bad, got string) {
 		name = "SkipValue"
 		p, err := rjson.SkipValue(w, &sweepBuf)
 		chk(name, p, err)
+		p, err = rjson.SkipValue(w, nil)
+		chk(name+"(nil buffer)", p, err)
+		p, err = rjson.SkipValue(w, &rjson.Buffer{})
+		chk(name+"(fresh buffer)", p, err)
+		rjson.Valid(w, &rjson.Buffer{})
 		name = "SkipValueFast"
 		p, err = rjson.SkipValueFast(w, &sweepBuf)
 		chk(name, p, err)
 		p, err = rjson.SkipValueFast(w, nil)
 		chk(name, p, err)
+		p, err = rjson.SkipValueFast(w, &rjson.Buffer{})
+		chk(name+"(fresh buffer)", p, err)
 		name = "ReadValue"
 		_, p, err = rjson.ReadValue(w)
 		chk(name, p, err)
@@ -129,11 +136,21 @@ func apiSweep(w []byte) (bad, got string) {
 		name = "HandleArrayValues"
 		p, err = rjson.HandleArrayValues(w, rjson.ArrayValueHandlerFunc(func([]byte) (int, error) { return 0, nil }), &sweepBuf)
 		chk(name, p, err)
+		p, err = rjson.HandleArrayValues(w, rjson.ArrayValueHandlerFunc(func([]byte) (int, error) { return 0, nil }), nil)
+		chk(name+"(nil buffer)", p, err)
+		p, err = rjson.HandleArrayValues(w, rjson.ArrayValueHandlerFunc(func([]byte) (int, error) { return 0, nil }), &rjson.Buffer{})
+		chk(name+"(fresh buffer)", p, err)
 		p, err = rjson.HandleArrayValues(w, &sweepReader, nil)
 		chk(name+"(ValueReader)", p, err)
 		name = "HandleObjectValues"
 		p, err = rjson.HandleObjectValues(w, rjson.ObjectValueHandlerFunc(func(_, _ []byte) (int, error) { return 0, nil }), &sweepBuf)
 		chk(name, p, err)
+		p, err = rjson.HandleObjectValues(w, rjson.ObjectValueHandlerFunc(func(_, _ []byte) (int, error) { return 0, nil }), nil)
+		chk(name+"(nil buffer)", p, err)
+		p, err = rjson.HandleObjectValues(w, rjson.ObjectValueHandlerFunc(func(_, _ []byte) (int, error) { return 0, nil }), &rjson.Buffer{})
+		chk(name+"(fresh buffer)", p, err)
+		p, err = rjson.HandleObjectValues(w, &rjson.ValueReader{}, nil)
+		chk(name+"(ValueReader)", p, err)
 		name = "ValueReader.HandleArrayValue"
 		p, err = (&rjson.ValueReader{}).HandleArrayValue(w)
 		chk(name, p, err)
@@ -285,7 +302,18 @@ func c10(r *eng.Run) {
 	apiRuns := 0
 	sp := e1Spec{
 		entry: "all exported functions",
-		probe: func(w []byte) { rjson.SkipValue(w, nil) },
+		// the implementation half of the node key: the configurations of all machines at end of input
+		probes: []func(w []byte){
+			func(w []byte) { rjson.SkipValue(w, nil) },
+			func(w []byte) { rjson.SkipValueFast(w, nil) },
+			func(w []byte) {
+				rjson.HandleArrayValues(w, rjson.ArrayValueHandlerFunc(func([]byte) (int, error) { return 0, nil }), nil)
+			},
+			func(w []byte) {
+				rjson.HandleObjectValues(w, rjson.ObjectValueHandlerFunc(func(_, _ []byte) (int, error) { return 0, nil }), nil)
+			},
+			func(w []byte) { rjson.ReadStringBytes(w, nil) },
+		},
 		check: func(w []byte, a *ref.PDA) (string, bool, string, string) {
 			eng.Beat(w)
 			apiRuns++
@@ -302,6 +330,12 @@ func c10(r *eng.Run) {
 		handWritten: true,
 		refKey:      func(w []byte, a *ref.PDA) string { return a.Key() + ref.StrRefine(w) },
 		noPump:      true,
+		// the non-validating machines stay "alive" on garbage: only well-formed prefixes are
+		// expanded (all 256 children of each are still run, dead ones included)
+		refAliveOnly: true,
+	}
+	if !r.Thorough() {
+		sp.probes = sp.probes[:2] // quick: the two skip machines
 	}
 	res := runE1(r, sp, 1, K, r.Pick(40000, 400000))
 	results = append(results, res)
@@ -334,6 +368,19 @@ func c10(r *eng.Run) {
 			extra = append(extra, []byte(v), []byte(`{"a":-`+v+`}`))
 		}
 	}
+	// digit strings round every power of five behind leading zeros (table-driven digit counts in
+	// the multiprecision fallback index a fixed array)
+	for k := 1; k <= 60; k++ {
+		p5 := new(big.Int).Exp(big.NewInt(5), big.NewInt(int64(k)), nil)
+		for _, dl := range []int64{-1, 0, 1, 26} {
+			ds := new(big.Int).Add(p5, big.NewInt(dl)).String()
+			for z := 0; z <= 12; z++ {
+				extra = append(extra, []byte("0."+strings.Repeat("0", z)+ds), []byte("["+ds+"e-"+strconv.Itoa(z+len(ds))+"]"))
+			}
+		}
+	}
+	// every push site of the machines at every stack size up to 70 levels
+	extra = append(extra, depthSiteFamily(70)...)
 	for _, w := range extra {
 		wc := eng.Exact(w)
 		eng.Beat(wc)
